@@ -252,6 +252,33 @@ def _leaf_table():
 
 LEAVES = _leaf_table()
 
+_DYN = {}
+
+
+def leaf(name):
+    """Static alphabet member, or one of the indexed families used for wide containers: `str#i`, `int#i`,
+    `flt#i` (pairwise distinct hashable scalars, ints far from 0/1 so that they never equal a bool) and `arr#i`
+    (small seeded arrays of three dtypes)."""
+    lf = LEAVES.get(name)
+    if lf is not None:
+        return lf
+    lf = _DYN.get(name)
+    if lf is None:
+        fam, _, idx = name.partition("#")
+        i = int(idx)
+        if fam == "str":
+            lf = Leaf(name, "str", (lambda seed, i=i: f"s{i}é"), hashable=True)
+        elif fam == "int":
+            lf = Leaf(name, "int", (lambda seed, i=i: 1000 + i), hashable=True, numeric=True)
+        elif fam == "flt":
+            lf = Leaf(name, "float", (lambda seed, i=i: i + 0.25), hashable=True, numeric=True)
+        elif fam == "arr":
+            lf = Leaf(name, "ndarray", (lambda seed, i=i: make_array(("i16", "f32", "u8")[i % 3], (2,), int(seed) + 100 + i)))
+        else:
+            raise KeyError(name)
+        _DYN[name] = lf
+    return lf
+
 # names that may never be used as attribute names / dict keys (the quantifier's exclusions), and names
 # that zarr treats as path syntax ('\\' is normalised to '/', '.' and '..' are path segments)
 RESERVED_NAMES = (
@@ -273,7 +300,7 @@ def name_allowed(n):
 
 # ----------------------------------------------------------------------------- descriptor helpers
 def L(name):
-    assert name in LEAVES, name
+    leaf(name)
     return ["L", name]
 
 
@@ -307,7 +334,7 @@ def build(desc, seed):
     """Fresh Python objects for a descriptor; nothing is shared between two calls."""
     tag = desc[0]
     if tag == "L":
-        return LEAVES[desc[1]].make(seed)
+        return leaf(desc[1]).make(seed)
     if tag == "C":
         kind, items = desc[1], desc[2]
         if kind == "dict":
@@ -330,15 +357,20 @@ def show(desc):
     if tag == "C":
         kind, items = desc[1], desc[2]
         if kind == "dict":
+            if len(items) > 6:
+                return "{" + ", ".join(f"{k!r}: {show(d)}" for k, d in items[:3]) + f", … {len(items)} keys …, {items[-1][0]!r}: {show(items[-1][1])}" + "}"
             return "{" + ", ".join(f"{k!r}: {show(d)}" for k, d in items) + "}"
-        inner = ", ".join(show(d) for d in items)
+        if len(items) > 6:
+            inner = ", ".join(show(d) for d in items[:3]) + f", … {len(items)} elements …, " + show(items[-1])
+        else:
+            inner = ", ".join(show(d) for d in items)
         return {"list": f"[{inner}]", "tuple": f"({inner}{',' if len(items) == 1 else ''})", "set": "set{" + inner + "}"}[kind]
     return f"{desc[1]}(" + ", ".join(f"{n}={show(d)}" for n, d in desc[2]) + ")"
 
 
 def desc_hashable(desc):
     if desc[0] == "L":
-        return LEAVES[desc[1]].hashable
+        return leaf(desc[1]).hashable
     if desc[0] == "C" and desc[1] == "tuple":
         return all(desc_hashable(d) for d in desc[2])
     return False
@@ -358,7 +390,7 @@ def excluded_by_quantifier(desc):
     """True if the graph contains an all-numeric list/tuple/set holding an integer beyond int64."""
     if desc[0] == "C" and desc[1] != "dict" and desc[2]:
         items = desc[2]
-        if all(d[0] == "L" and LEAVES[d[1]].numeric for d in items) and any(LEAVES[d[1]].beyond_i64 for d in items):
+        if all(d[0] == "L" and leaf(d[1]).numeric for d in items) and any(leaf(d[1]).beyond_i64 for d in items):
             return True
     return any(excluded_by_quantifier(c) for c in children(desc))
 
@@ -381,7 +413,7 @@ def leaf_occurrences(desc, ck=None, out=None):
 
 def node_kind(desc):
     if desc[0] == "L":
-        return LEAVES[desc[1]].cls
+        return leaf(desc[1]).cls
     return desc[1] if desc[0] == "C" else "object"
 
 
@@ -406,7 +438,7 @@ def dispatch_classes(desc, out=None):
     if out is None:
         out = set()
     if desc[0] == "L":
-        out.add(LEAVES[desc[1]].cls)
+        out.add(leaf(desc[1]).cls)
     elif desc[0] == "C":
         out.add(desc[1])
     else:
@@ -602,6 +634,68 @@ def config_core(n):
     return [core[i] for i in order[:n]]
 
 
+WIDTHS = [9, 10, 11, 12, 25, 99, 100, 101]
+WIDTH_ELEMENTS = ["str", "mixed_scalars", "ndarray", "nested_pair", "object", "all_numeric"]
+
+
+def _wide_element(elem, i, in_set):
+    """Element i of a wide container; None when the element kind cannot live in that container kind."""
+    if elem == "str":
+        return L(f"str#{i}")
+    if elem == "all_numeric":
+        return L(f"int#{i}")
+    if elem == "mixed_scalars":
+        if in_set:  # distinct hashables, one None
+            return L("none") if i == 2 else [L(f"str#{i}"), L(f"int#{i}"), L(f"flt#{i}")][i % 3]
+        return [L(f"str#{i}"), L(f"int#{i}"), L("none"), L(f"flt#{i}"), L("true") if i % 2 else L("false")][i % 5]
+    if elem == "nested_pair":
+        return C("tuple" if in_set else "list", L(f"int#{i}"), L(f"str#{i}"))
+    if in_set:
+        return None
+    if elem == "ndarray":
+        return L(f"arr#{i}")
+    if elem == "object":
+        return O("NodeC", v=L(f"int#{i}"))
+    raise ValueError(elem)
+
+
+def wide(kind, elem, n):
+    items = [_wide_element(elem, i, kind == "set") for i in range(n)]
+    if any(i is None for i in items):
+        return None
+    if kind == "dict":
+        return D(*[(f"key{i}", it) for i, it in enumerate(items)])
+    return C(kind, *items)
+
+
+def _width_graphs(quick):
+    """Containers of every width of WIDTHS (the element-wise encoding names its slots '0', '1', ...: the
+    alphabet straddles the places where a decimal slot name gets one digit longer) x container kind x element
+    kind, at top level and one level deep. quick: the element kinds that cost one zarr node per element
+    (ndarray, nested pair, object) only at widths {10, 11, 12, 101} on top level and 11 one level deep."""
+    out = []
+    cheap = ("str", "mixed_scalars", "all_numeric")
+    for elem in WIDTH_ELEMENTS:
+        for kind in KINDS:
+            for n in WIDTHS:
+                g = wide(kind, elem, n)
+                if g is None:
+                    continue
+                if elem == "object" and n not in (10, 11, 101):
+                    continue  # a few widths only, in both tiers
+                top = elem in cheap or not quick or n in (10, 11, 12, 101)
+                deep = elem in cheap or not quick or n == 11
+                if elem == "object":
+                    deep = deep and n == 11
+                if top:
+                    out.append(O("Root", x=g))
+                if deep:
+                    out.append(O("Root", x=C("list", L("s"), g)))
+                    if not quick:
+                        out.append(O("Root", x=D(("w", g), ("n", L("none")))))
+    return out
+
+
 def _pair_graphs_quick(reps):
     """Quick tier: ordered pairs in lists, unordered pairs (with the diagonal) in dicts, unordered distinct
     hashable pairs in sets, the diagonal in tuples (tuples share the list decoder)."""
@@ -692,6 +786,8 @@ def grammar(tier):
             names.append(O("Root", (nm, L(v))))
             names.append(O("Root", x=D((nm, L(v)), ("other", L("s")))))
     add("names", names)
+    # I. wide containers (slot names with 1, 2 and 3 digits)
+    add("wide_container", _width_graphs(quick))
     if not quick:
         allreps = dict(REPS, **CORNER_REPS)
         # pairs one level deeper: inside list / tuple / dict / a nested object
@@ -711,7 +807,7 @@ def grammar(tier):
         seen.add(k)
         items.append(it)
     bounds = {
-        "depth_d": d, "width_w": w, "sequence_length_max": seq_len, "leaves": len(LEAVES),
+        "depth_d": d, "width_w": w, "wide_container_widths": list(WIDTHS), "sequence_length_max": seq_len, "leaves": len(LEAVES),
         "dispatch_representatives": (len(REPS) - 3 if quick else len(REPS) + len(CORNER_REPS)),
         "graphs": len(items), "graphs_excluded_by_quantifier": excluded,
         "max_descriptor_depth": max(depth(i["g"]) for i in items),
